@@ -160,9 +160,23 @@ def seeded_tracks(ctx, prop, n, **kw):
             case["events"] = [r.choice(junk + ['0 = E "section a"', '5 = E "lyric b"']) for _ in range(r.randrange(1, 5))]
             case["events"].sort(key=lambda ln: 0 if not ln[:1].isdigit() else 1)
             extra = [("J", r.choice(junk)) for _ in range(r.randrange(1, 4))]
+            # ... and the SIBLING special phrases other games write into the same sections (S 64: Rock Band drum fills, S 0 / S 1:
+            # the two players' phrases in GH1 co-op), laid over the notes: only 'S 2' is a star-power phrase
+            extra += sibling_phrase_lines(r, body)
             case["body"] = nt.interleave(r, body, extra)
         cases.append(case)
     return cases
+
+
+def sibling_phrase_lines(r, body):
+    """1-3 lines of the sibling special kinds ('S 64', 'S 0', 'S 1' ...) laid over the notes of the body, as ("J", text)."""
+    nticks = [it[1] for it in body if it[0] == "N"]
+    out = []
+    if nticks:
+        for _ in range(r.randrange(1, 4)):
+            t0 = r.choice(nticks)
+            out.append(("J", f"{max(0, t0 - r.choice([0, 0, 1, 5]))} = S {r.choice([64, 64, 0, 1, 3, 22])} {r.choice([1, 2, 96, 500, 5000])}"))
+    return out
 
 
 def seeded_multi(ctx, prop, n, **kw):
